@@ -352,8 +352,11 @@ class Report:
         }
         if not ev['coverage']['samples']:
             ev['coverage']['samples'] = ['(none)']
-        os.makedirs(os.path.join(VERIF, 'evidence'), exist_ok=True)
-        with open(os.path.join(VERIF, 'evidence', self.prop + '.json'), 'w') as fh:
+        # evidence describes runs against /repo itself; runs against another tree (VERIF_REPO,
+        # used for mutant experiments) must not overwrite it
+        evdir = os.path.join(VERIF, 'evidence') if REPO == '/repo' else os.path.join(BUILD, 'evidence-alt')
+        os.makedirs(evdir, exist_ok=True)
+        with open(os.path.join(evdir, self.prop + '.json'), 'w') as fh:
             json.dump(ev, fh, indent=1, sort_keys=True)
         return rc
 
